@@ -2,6 +2,7 @@ import Sudachi.Proofs.Layers
 import Sudachi.Proofs.LayersBuild
 import Sudachi.Proofs.LayersLoad
 import Sudachi.Proofs.LayersRefs
+import Sudachi.Proofs.LayersLimit
 /-!
 # C12 — Layered user dictionaries keep ids, parts of speech and references straight
 
@@ -9,7 +10,9 @@ Model: `Model/Layers.lean` (`WordId`, `Lexicon::lookup`, `LexiconSet::{new, appe
 update_dict_id}`, `Grammar::{register_pos, merge}`, `handle_user_pos`, `from_cfg_storage` / `merge_user_dictionary`,
 the dictionary builder's POS numbering, `validate_entries`, inline resolution) and `Model/LayersLoad.lean` (the order of
 the load steps: connection-cost plugins, OOV POS, connection edits, per user dictionary `update_cost` → `append` →
-`merge`).  `WordId` is modelled at the bit level.  Quantifiers: every system POS list, every sequence of plugin POS
+`merge`; `MergeVariant`: `merge_user_dictionary` without / with the test that the merged POS list stays within what a
+`u16` id addresses — `load`/`loadFull` are the pinned code, `loadV .limit`/`loadFullV .limit` the repaired one).  `WordId` is
+modelled at the bit level, the narrowing `as u16` of the rebased POS id is `asU16` in `rebasePos`.  Quantifiers: every system POS list, every sequence of plugin POS
 registrations, every list of user dictionaries (own POS lists of any length, any stored words), every word id.
 -/
 namespace C12
@@ -473,7 +476,10 @@ theorem declared_pos_reported_prefix_base (sys extra : List Pos) (sw : List SysW
     have hown_lt : wd.posId - sys.length < own.length := by simp at hbound; omega
     rw [((husr hge).2 hown_lt hsmall).2, ← hpos, List.getElem?_append_right hge]
 
-/-- The POS clause itself, full strength, for the REPAIRED builder: "its part of speech is exactly the part-of-speech
+/-- The POS clause for the REPAIRED builder and ANY loader (`load` = the pinned `merge_user_dictionary`), under the side
+condition that the merged POS list fits `u16` ids (`hsmall`; the pinned loader does not enforce it — finding P2,
+`pos_id_wraps_beyond_u16_counterexample` — the repaired loader does: `declared_pos_reported` below has no such hypothesis):
+"its part of speech is exactly the part-of-speech
 strings declared for it ... also when OOV plugins register further ones" — with NO restriction on the dictionary the
 user dictionary was compiled against.  The build base `B` is the system dictionary loaded by `from_cfg_storage` with ANY
 plugin configuration `basePlugs` (registering any number Q ≥ 0 of POS) and even any user dictionaries `baseUsers`;
@@ -481,7 +487,7 @@ plugin configuration `basePlugs` (registering any number Q ≥ 0 of POS) and eve
 as the (j+1)-th dictionary of any stack over the same system dictionary under any plugin configuration `plugs`:
 the word of row `i` is word `i` of dictionary `j+1` and its reported POS id names exactly the POS declared in row `i`.
 (False for the pinned builder as soon as Q ≥ 1: `plugin_base_counterexample`.) -/
-theorem declared_pos_reported (sys : List Pos) (sw : List SysWord) (sysLex : Lexicon) (plugs : List (Bool × Pos))
+theorem declared_pos_reported_within_u16 (sys : List Pos) (sw : List SysWord) (sysLex : Lexicon) (plugs : List (Bool × Pos))
     (us : List (List Pos × Lexicon)) (D : Dict) (hload : load sys sysLex plugs us = .ok D)
     (hnd : sys.Nodup) (hle : sys.length ≤ 32768) (hsmall : D.posList.length ≤ 65536)
     (baseLex : Lexicon) (basePlugs : List (Bool × Pos)) (baseUsers : List (List Pos × Lexicon)) (B : Dict)
@@ -495,6 +501,29 @@ theorem declared_pos_reported (sys : List Pos) (sw : List SysWord) (sysLex : Lex
   rw [hBpos, hBnsp, List.append_assoc] at hb
   exact declared_pos_reported_prefix_base sys (bplug ++ (baseUsers.map (·.1)).flatten) sw sysLex plugs us D hload
     hnd hle hsmall j rows b own lex hb hown hlex hj i row hi hi28
+
+/-- The POS clause itself, FULL STRENGTH, for the repaired builder (`PreVariant.sysOnly`, P1) and the repaired loader
+(`MergeVariant.limit`, P2): "its part of speech is exactly the part-of-speech strings declared for it ... including parts of
+speech that exist only in a user dictionary, also when OOV plugins register further ones" — with NO restriction on the
+dictionary the user dictionary was compiled against and NO side condition on the size of the merged POS list: whenever
+`from_cfg_storage` succeeds, the word of row `i` of the (j+1)-th user dictionary is word `i` of dictionary `j+1` and the POS id
+`get_word_info` reports for it — computed as `(pos_id − num_system_pos + pos_offsets[j+1]) as u16` — names exactly the POS
+declared in row `i`.  (The hypothesis `hsmall : D.posList.length ≤ 65536` of `declared_pos_reported_within_u16` is discharged
+by the load itself: `repaired_load_fits_u16`.  False for the pinned loader: `pos_id_wraps_beyond_u16_counterexample`.) -/
+theorem declared_pos_reported (sys : List Pos) (sw : List SysWord) (sysLex : Lexicon) (plugs : List (Bool × Pos))
+    (us : List (List Pos × Lexicon)) (D : Dict) (hload : loadV .limit sys sysLex plugs us = .ok D)
+    (hnd : sys.Nodup) (hle : sys.length ≤ 32768)
+    (baseLex : Lexicon) (basePlugs : List (Bool × Pos)) (baseUsers : List (List Pos × Lexicon)) (B : Dict)
+    (hbase : loadV .limit sys baseLex basePlugs baseUsers = .ok B)
+    (j : Nat) (rows : List Row) (b : Built) (own : List Pos) (lex : Lexicon)
+    (hb : buildUser .sysOnly ⟨B.posList, B.set.numSystemPos, sw⟩ rows = .ok b)
+    (hown : readPosTable b = .ok own) (hlex : lex.words = b.words)
+    (hj : us[j]? = some (own, lex)) (i : Nat) (row : Row) (hi : rows[i]? = some row) (hi28 : i < P28) :
+    ∃ wi, D.set.getWordInfo (mkRaw (1 + j) i) = .ok wi ∧ D.posList[wi.posId]? = some row.pos := by
+  obtain ⟨hl, hfit⟩ := loadV_limit_ok sys sysLex plugs us D hload
+  obtain ⟨hlB, _⟩ := loadV_limit_ok sys baseLex basePlugs baseUsers B hbase
+  exact declared_pos_reported_within_u16 sys sw sysLex plugs us D hl hnd hle (hfit (by unfold U16_IDS; omega))
+    baseLex basePlugs baseUsers B hlB j rows b own lex hb hown hlex hj i row hi hi28
 
 /-- The same clause for the PINNED builder (`PreVariant.all`, the code as it stands) holds only under the restriction
 "compiled against the plainly loaded system dictionary" (`pos_list.len() = num_system_pos`, no plugin-registered POS
@@ -658,6 +687,98 @@ theorem costs_unaffected_by_later_dictionaries (est : LoadState → Nat → Outc
   cases b
   rw [c, c']
 
+/-! ## the merged POS list and `u16` ids: the repaired `merge_user_dictionary` (finding P2) -/
+
+/-- `MergeVariant.unbounded` is the pinned code: the variant-carrying loads the driver executes are `load` / `loadFull`
+verbatim when the harness names the pinned tree (`mv=any`). -/
+theorem unbounded_variant_is_pinned_load (est : LoadState → Nat → Outcome (Int × Nat)) (sys : List Pos) (sysLex : Lexicon)
+    (sysCosts : List Int) (nl nr : Nat) (conn : List (List (Nat × Nat))) (plugs : List (Bool × Pos)) (nOov : Nat)
+    (users : List UserDic) (us : List (List Pos × Lexicon)) :
+    loadFullV .unbounded est sys sysLex sysCosts nl nr conn plugs nOov users =
+      loadFull est sys sysLex sysCosts nl nr conn plugs nOov users ∧
+    loadV .unbounded sys sysLex plugs us = load sys sysLex plugs us :=
+  ⟨loadFullV_unbounded est sys sysLex sysCosts nl nr conn plugs nOov users, loadV_unbounded sys sysLex plugs us⟩
+
+/-- EVERY successful load of the repaired tree has at most 65 536 parts of speech — ids `0 ..= 65535`, all a `u16` can
+name.  `sys.length ≤ 65536` is no restriction on real inputs: a POS table read from a dictionary file has a `u16` row count
+(`system_pos_table_fits_u16`); `register_pos` refuses the 65 537th entry; the repaired `merge_user_dictionary` refuses a
+table that would push the list beyond 65 536.  The repaired load is also a successful PINNED load with the same result (so
+`load_full_refines_load`, `cost_estimated_on_prefix`, `costs_unaffected_by_later_dictionaries`, `dict_id_correct`,
+`split_targets_exist`, `system_unaffected` … all apply to it), and its POS / lexicon part is `loadV .limit`. -/
+theorem repaired_load_fits_u16 (est : LoadState → Nat → Outcome (Int × Nat)) (sys : List Pos) (sysLex : Lexicon)
+    (sysCosts : List Int) (nl nr : Nat) (conn : List (List (Nat × Nat))) (plugs : List (Bool × Pos)) (nOov : Nat)
+    (users : List UserDic) (F : LoadState) (hs : sys.length ≤ 65536)
+    (h : loadFullV .limit est sys sysLex sysCosts nl nr conn plugs nOov users = .ok F) :
+    F.dict.posList.length ≤ 65536 ∧
+    loadFull est sys sysLex sysCosts nl nr conn plugs nOov users = .ok F ∧
+    loadV .limit sys sysLex plugs (users.map UserDic.proj) = .ok F.dict := by
+  obtain ⟨h1, h2⟩ := loadFullV_limit_ok est sys sysLex sysCosts nl nr conn plugs nOov users F h
+  have hfit := h2 hs
+  refine ⟨hfit, h1, ?_⟩
+  exact loadV_limit_of_fits sys sysLex plugs _ F.dict
+    (load_full_refines_load est sys sysLex sysCosts nl nr conn plugs nOov users F h1).1 hfit
+
+/-- the hypothesis `sys.length ≤ 65536` of the theorems of this section holds for every system POS list that was read from a
+dictionary the builder wrote (and likewise every own table of a user dictionary has fewer than 65 536 rows): the row
+count is written and read as a `u16`. -/
+theorem system_pos_table_fits_u16 (pre : Option (List Pos × List SysWord)) (rows : List Row) (b : Built) (tbl : List Pos)
+    (hb : build pre rows = .ok b) (h : readPosTable b = .ok tbl) : tbl.length < 65536 :=
+  build_posTable_lt pre rows b tbl hb h
+
+/-- The repair removes nothing and refuses exactly the lists no `u16` id can address: on every input the pinned load
+accepts (result `F`), the repaired load gives the SAME result when the merged list has at most 65 536 entries and
+`Err(InvalidPartOfSpeech)` otherwise — the test sits before `update_cost`, so nothing is analysed for a refused dictionary. -/
+theorem repair_refuses_exactly_beyond_u16 (est : LoadState → Nat → Outcome (Int × Nat)) (sys : List Pos) (sysLex : Lexicon)
+    (sysCosts : List Int) (nl nr : Nat) (conn : List (List (Nat × Nat))) (plugs : List (Bool × Pos)) (nOov : Nat)
+    (users : List UserDic) (F : LoadState) (hs : sys.length ≤ 65536)
+    (h : loadFull est sys sysLex sysCosts nl nr conn plugs nOov users = .ok F) :
+    (F.dict.posList.length ≤ 65536 → loadFullV .limit est sys sysLex sysCosts nl nr conn plugs nOov users = .ok F) ∧
+    (65536 < F.dict.posList.length →
+      loadFullV .limit est sys sysLex sysCosts nl nr conn plugs nOov users = .err .invalidPos) :=
+  ⟨loadFullV_limit_of_fits est sys sysLex sysCosts nl nr conn plugs nOov users F h,
+   loadFullV_limit_refuses est sys sysLex sysCosts nl nr conn plugs nOov users F h hs⟩
+
+/-- `pos_rebase_correct` for the repaired loader, about the code's arithmetic and WITHOUT the side condition "the list fits
+`u16`": after any successful load, a word of the (j+1)-th dictionary stored with the build-time id `p ≥ S` of one of its own
+POS (`p − S < U_{j+1}`) is reported with the id `(p − S + pos_offsets[j+1]) as u16`, and that number IS
+`S + Q + Σ_{i<j+1} U_i + (p − S)` — the narrowing loses nothing, the id is below 65 536 — and that entry of the loaded list is
+`own_{j+1}[p − S]`; a system id `p < S` is reported unchanged and names `sys[p]`.  (In `pos_rebase_correct` the last step
+needs `D.posList.length ≤ 65536` as a hypothesis; the model's ids were never unbounded — `rebasePos` has applied `asU16`
+since the first round — but nothing in the pinned load enforces the bound.) -/
+theorem pos_rebase_exact (sys : List Pos) (sysLex : Lexicon) (plugs : List (Bool × Pos))
+    (us : List (List Pos × Lexicon)) (D : Dict) (hs : sys.length ≤ 65536)
+    (hload : loadV .limit sys sysLex plugs us = .ok D) :
+    ∃ plug ids, loadPlugins sys plugs = .ok (sys ++ plug, ids) ∧
+      D.posList = sys ++ plug ++ (us.map (·.1)).flatten ∧ D.posList.length ≤ 65536 ∧
+      ∀ (j : Nat) (own : List Pos) (lex : Lexicon), us[j]? = some (own, lex) →
+      ∀ (w : Nat) (stored : Word), lex.words[w]? = some stored → w < P28 →
+        ∃ wi, D.set.getWordInfo (mkRaw (1 + j) w) = .ok wi ∧
+          (stored.posId < sys.length → wi.posId = stored.posId ∧ D.posList[wi.posId]? = sys[stored.posId]?) ∧
+          (sys.length ≤ stored.posId → stored.posId - sys.length < own.length →
+            wi.posId = (stored.posId - sys.length + (sys.length + plug.length + (ownBefore us j).length)) % 65536 ∧
+            wi.posId = sys.length + plug.length + (ownBefore us j).length + (stored.posId - sys.length) ∧
+            wi.posId < 65536 ∧
+            D.posList[wi.posId]? = own[stored.posId - sys.length]?) := by
+  obtain ⟨hl, hfit⟩ := loadV_limit_ok sys sysLex plugs us D hload
+  have hsmall : D.posList.length ≤ 65536 := hfit hs
+  obtain ⟨plug, ids, hpl, hpos, hrb⟩ := pos_rebase_correct sys sysLex plugs us D hl
+  refine ⟨plug, ids, hpl, hpos, hsmall, ?_⟩
+  intro j own lex hj w stored hw hw28
+  obtain ⟨wi, hwi, hsys, husr⟩ := hrb j own lex hj w stored hw hw28
+  refine ⟨wi, hwi, hsys, ?_⟩
+  intro hge hown
+  obtain ⟨h1, h2⟩ := husr hge
+  obtain ⟨h3, h4⟩ := h2 hown hsmall
+  have hlt : wi.posId < D.posList.length := by
+    by_cases hlt : wi.posId < D.posList.length
+    · exact hlt
+    · rw [List.getElem?_eq_none (by omega), List.getElem?_eq_getElem hown] at h4; cases h4
+  refine ⟨?_, h3, by omega, h4⟩
+  rw [h1]
+  unfold asU16
+  congr 1
+  omega
+
 /-! ## finding: a user dictionary compiled against a dictionary whose plugins registered POS -/
 
 /-- The POS clause is FALSE for the pinned builder (`PreVariant.all`, the unchanged code) when the user dictionary was
@@ -691,7 +812,9 @@ with `as u16`: for EVERY load, a word of dictionary `j+1` whose own POS sits at 
 `S + Q + Σ U_{<j+1} + (p − S) ≥ 65 536` of the loaded list is reported with that number modulo 65 536 — an id below 65 536
 that names an entry of the system dictionary / an earlier layer.  Second part: such loads exist and succeed (one user
 dictionary with 65 537 own POS over an empty system list; on the real code: three user dictionaries with 30 000 own POS
-each, see reports/C12.md). -/
+each, or two with 32 767 each over one system POS and two plugin POS, see reports/C12.md).  Third part: the repaired loader
+(`MergeVariant.limit`) refuses that very input with `InvalidPartOfSpeech`.  The statement is about the PINNED
+`merge_user_dictionary` (`load` = `loadV .unbounded`, `unbounded_variant_is_pinned_load`). -/
 theorem pos_id_wraps_beyond_u16_counterexample :
     (∀ (sys : List Pos) (sysLex : Lexicon) (plugs : List (Bool × Pos)) (us : List (List Pos × Lexicon)) (D : Dict),
       load sys sysLex plugs us = .ok D →
@@ -704,7 +827,9 @@ theorem pos_id_wraps_beyond_u16_counterexample :
           wi.posId ≠ sys.length + plug.length + (ownBefore us j).length + (stored.posId - sys.length)) ∧
     (∃ D, load [] ⟨[], 255, []⟩ [] [(List.replicate 65537 [0, 0, 0, 0, 0, 0], ⟨[⟨65536, [], [], []⟩], 255, []⟩)] = .ok D ∧
       D.posList.length = 65537 ∧
-      ∃ wi, D.set.getWordInfo (mkRaw 1 0) = .ok wi ∧ wi.posId = 0) := by
+      ∃ wi, D.set.getWordInfo (mkRaw 1 0) = .ok wi ∧ wi.posId = 0) ∧
+    loadV .limit [] ⟨[], 255, []⟩ [] [(List.replicate 65537 [0, 0, 0, 0, 0, 0], ⟨[⟨65536, [], [], []⟩], 255, []⟩)] =
+      .err .invalidPos := by
   constructor
   · intro sys sysLex plugs us D hload
     obtain ⟨plug, ids, hpl, _, hrb⟩ := pos_rebase_correct sys sysLex plugs us D hload
@@ -732,7 +857,9 @@ theorem pos_id_wraps_beyond_u16_counterexample :
       have := (husr (by simp)).1
       rw [this]
       simp [ownBefore, asU16]
-    exact aux _ (List.length_replicate ..)
+    obtain ⟨D, hD, hlen, hw⟩ := aux _ (List.length_replicate (n := 65537) (a := ([0, 0, 0, 0, 0, 0] : Pos)))
+    refine ⟨⟨D, hD, hlen, hw⟩, ?_⟩
+    exact loadV_limit_refuses _ _ _ _ D hD (by simp [U16_IDS]) (by rw [hlen]; simp [U16_IDS])
 
 /-! ## non-vacuity -/
 
@@ -748,6 +875,42 @@ example :
       D.set.getWordInfo (mkRaw 2 1) = .ok ⟨1, [], [], []⟩ := by
   refine ⟨_, rfl, ?_⟩
   decide
+
+/-- the repaired load at the limit: one system POS and a user dictionary with 65 535 own POS make exactly 65 536 entries; the
+load succeeds (hypotheses of `repaired_load_fits_u16` / `pos_rebase_exact` / `declared_pos_reported` are satisfiable with the
+bound attained) and the word stored with the last own id is reported with id 65 535 — the largest `u16`, not a sentinel. -/
+example :
+    ∃ D, loadV .limit [[9, 9, 9, 9, 9, 9]] ⟨[], 255, []⟩ []
+        [(List.replicate 65535 [0, 0, 0, 0, 0, 0], ⟨[⟨65535, [], [], []⟩], 255, []⟩)] = .ok D ∧
+      D.posList.length = 65536 ∧ ∃ wi, D.set.getWordInfo (mkRaw 1 0) = .ok wi ∧ wi.posId = 65535 := by
+  have aux : ∀ own : List Pos, own.length = 65535 →
+      ∃ D, loadV .limit [[9, 9, 9, 9, 9, 9]] ⟨[], 255, []⟩ [] [(own, ⟨[⟨65535, [], [], []⟩], 255, []⟩)] = .ok D ∧
+        D.posList.length = 65536 ∧ ∃ wi, D.set.getWordInfo (mkRaw 1 0) = .ok wi ∧ wi.posId = 65535 := by
+    intro own hown
+    obtain ⟨D, hD⟩ := load_accepts_fourteen [[9, 9, 9, 9, 9, 9]] ⟨[], 255, []⟩ []
+      [(own, ⟨[⟨65535, [], [], []⟩], 255, []⟩)] [[9, 9, 9, 9, 9, 9]] [] rfl (by simp)
+    obtain ⟨plug, ids, hpl, hpos, _⟩ := pos_rebase_correct _ _ _ _ D hD
+    have hplug : plug = [] := by
+      have : loadPlugins [[9, 9, 9, 9, 9, 9]] [] = .ok (([[9, 9, 9, 9, 9, 9]] : List Pos), ([] : List Nat)) := rfl
+      rw [this] at hpl
+      have := (Prod.mk.inj (Outcome.ok.inj hpl)).1
+      simpa using this.symm
+    subst hplug
+    have hlen : D.posList.length = 65536 := by rw [hpos]; simp [hown]
+    have hV := loadV_limit_of_fits _ _ _ _ D hD (by rw [hlen]; simp [U16_IDS])
+    obtain ⟨plug', ids', hpl', _, _, hrb⟩ := pos_rebase_exact _ _ _ _ D (by simp) hV
+    have hplug' : plug' = [] := by
+      have : loadPlugins [[9, 9, 9, 9, 9, 9]] [] = .ok (([[9, 9, 9, 9, 9, 9]] : List Pos), ([] : List Nat)) := rfl
+      rw [this] at hpl'
+      have := (Prod.mk.inj (Outcome.ok.inj hpl')).1
+      simpa using this.symm
+    subst hplug'
+    obtain ⟨wi, hwi, _, husr⟩ := hrb 0 _ _ rfl 0 ⟨65535, [], [], []⟩ rfl (by unfold P28; omega)
+    refine ⟨D, hV, hlen, wi, hwi, ?_⟩
+    have := (husr (by simp) (by simp [hown])).2.1
+    rw [this]
+    simp [ownBefore]
+  exact aux _ (List.length_replicate ..)
 
 /-- the hypotheses of `declared_pos_reported` are satisfiable with Q = 1 and the repaired builder gets the witness of
 `plugin_base_counterexample` right: same base (system POS `[P0]`, plugin POS `X`, `num_system_pos` = 1), same rows; the
